@@ -360,8 +360,14 @@ def run(ctx, res):
     tcoq = []
     for t in tcs:
         res.note_case(("typed", t["dtype"], t["subtype"], t["cast"], t["value"]), not t["ist"])
-        if t["castok"] is None or t["raised"]:
+        if t["castok"] is None:
             res.count("typed_cast_raises_other")
+            continue
+        if t["raised"]:
+            # the callee never raises here and a cast that fails with TypeError / ValueError means "predicate False":
+            # nothing may escape evaluate()
+            res.failures.append(dict(signature="typed-predicate-raised", what="%s escaped BoboPredicateCallType(dtype=%s, subtype=%s, "
+                                     "cast=%s).evaluate for data %s" % (t["raised"], t["dtype"], t["subtype"], t["cast"], t["value"]), case=t))
             continue
         ok_type = t["ist"] if t["subtype"] else t["isx"]
         called = bool(t["seen"])
@@ -383,8 +389,10 @@ def run(ctx, res):
 
 
 def typed_fail(t):
-    if t["castok"] is None or t["raised"]:
+    if t["castok"] is None:
         return None
+    if t["raised"]:
+        return "%s escaped evaluate() for %s" % (t["raised"], {k: t[k] for k in ("dtype", "subtype", "cast", "value")})
     ok_type = t["ist"] if t["subtype"] else t["isx"]
     called = bool(t["seen"])
     exp_called = ok_type or (t["cast"] and t["castok"])
@@ -411,7 +419,7 @@ def replay(obj):
         exn = feed_shape(case["shape"], case.get("scheme", 1), case["stream"])
         print("now: %s escaped BoboRun.process" % exn if exn else "now: no exception escapes BoboRun.process")
         return 1 if exn else 0
-    if sig == "typed-predicate":
+    if sig in ("typed-predicate", "typed-predicate-raised"):
         for t in typed_cases():
             if all(t[k] == case[k] for k in ("dtype", "subtype", "cast", "value")):
                 f = typed_fail(t)
